@@ -404,6 +404,9 @@ func (k *c10k) mapRoot(v ssa.Value, d int) string {
 			root := ""
 			for _, ref := range *a.Referrers() {
 				if st, ok := ref.(*ssa.Store); ok && st.Addr == ssa.Value(a) {
+					if ssau.IsNilConst(st.Val) {
+						continue // the nil map holds nothing
+					}
 					r := k.mapRoot(st.Val, d+1)
 					if r == "" || (root != "" && root != r) {
 						return ""
@@ -417,6 +420,20 @@ func (k *c10k) mapRoot(v ssa.Value, d int) string {
 		return "F:" + ssau.NamedOf(x.X.Type()) + "." + ssau.FieldName(x)
 	case *ssa.ChangeType:
 		return k.mapRoot(x.X, d+1)
+	case *ssa.Phi:
+		// a merge of one origin with the nil map (which holds nothing)
+		root := ""
+		for _, e := range x.Edges {
+			if ssau.IsNilConst(e) || e == ssa.Value(x) {
+				continue
+			}
+			r := k.mapRoot(e, d+1)
+			if r == "" || (root != "" && r != root) {
+				return ""
+			}
+			root = r
+		}
+		return root
 	case *ssa.Parameter:
 		// the same origin at every call site
 		root, n := "", 0
